@@ -2,6 +2,8 @@ package security
 
 // Shared harness scaffolding for package security (overlay only).
 
+//vp:use gocache
+
 import (
 	"context"
 	"strconv"
